@@ -88,9 +88,14 @@ Debug(mode) == mode = "normal"                                   \* __debug__
 Slow(mode, env) == Debug(mode) /\ env = "set"                     \* icontract.SLOW
 Enabled(arg, mode, env) ==
   CASE arg = "default" -> Debug(mode) [] arg = "true" -> TRUE [] arg = "false" -> FALSE [] arg = "slow" -> Slow(mode, env)
+\* callable kinds of the configuration table: besides functions, methods and classes, an object with __call__ and a
+\* functools.partial (neither function nor method), and - for invariants - a plain subclass of a class that already
+\* has (enabled) invariants and defines a method of its own
 ConfigCells == {[t |-> "config", d |-> d, arg |-> a, mode |-> m, env |-> e, c |-> c] :
-                  d \in Decorators, a \in EnabledArgs, m \in Modes, e \in EnvSlow, c \in {"function", "method", "async_function", "class"}}
-ConfigApplies(d, c) == (d = "invariant") = (c = "class")
+                  d \in Decorators, a \in EnabledArgs, m \in Modes, e \in EnvSlow,
+                  c \in {"function", "method", "async_function", "class", "callable_object", "partial", "subclass"}}
+ConfigApplies(d, c) == /\ (d = "invariant") = (c \in {"class", "subclass"})
+                       /\ (c \in {"callable_object", "partial"} => d \in {"require", "ensure"})
 \* a contract that is explicitly enabled is applied in every mode; one that is explicitly disabled in none
 ModeIndependent ==
   cell.t = "config" =>
